@@ -345,8 +345,26 @@ class Run:
             if k["signature"] not in seen:
                 self.notes.append(f"known finding not observed on this run: {k['signature']}")
 
+    def _sanitize_axioms(self):
+        """The per-area libraries parse `Print Assumptions` output with `^name :`;
+        header / message words that end in a colon are not axioms."""
+        junk = {"Axioms", "Error", "Warning", "File", "Toplevel"}
+        apt = self.cov.get("axioms_per_theorem")
+        if isinstance(apt, dict):
+            for k, v in list(apt.items()):
+                if isinstance(v, list):
+                    apt[k] = [a for a in v if a not in junk]
+            axioms = sorted({a for v in apt.values() if isinstance(v, list) for a in v})
+            tb = self.cov.get("trusted_base")
+            if isinstance(tb, list):
+                for i, t in enumerate(tb):
+                    if isinstance(t, str) and t.startswith("axioms reported by Print Assumptions"):
+                        tb[i] = "axioms reported by Print Assumptions: " + (
+                            ", ".join(axioms) if axioms else "none (all theorems closed under the global context)")
+
     def finish(self) -> int:
         self.expect_known_seen()
+        self._sanitize_axioms()
         if not self.cov.get("discharged") and not self.violations:
             # fail closed: a check whose proof obligations did not check can never report OK
             self.violation("proof-obligations-not-discharged",
